@@ -18,4 +18,18 @@ PROPS = {
         assumptions=['reference codec refosc.h written from the OSC 1.0 text is correct',
                      'x86-64 SysV va_list layout for the hand-built va_list path',
                      'float NaNs passed through varargs are quiet (C default promotion quiets signalling NaNs)']),
+    'C02': dict(
+        level_text='Runtime monitoring with guard pages: every generated message and bundle is built into a buffer of every capacity from 0 to needed+8 that ends exactly at a PROT_NONE page (canary bytes in front), through rtosc_amessage, rtosc_vmessage, rtosc_message, rtosc_avmessage and rtosc_bundle; the oracle demands return 0 and an all-zero buffer when the reference size exceeds the capacity, the exact reference bytes and size otherwise, and NULL-buffer size queries equal to the reference size. ThreadLink::write/writeArray (MaxMsg 8..64, messages far below to far above) and RtData::reply/broadcast around their 8192-byte stack buffers run under AddressSanitizer. Held on the capacities x messages explored.',
+        level_note='Trusts the reference codec for sizes/bytes, the MMU for over-runs and a 16-byte canary for under-runs; AddressSanitizer red zones for the library-internal heap/stack buffers. Bytes between needed and len after a successful build may be untouched or zero.',
+        technique='guard-page buffer + capacity sweep monitor under AddressSanitizer, reference-size oracle',
+        stages=[dict(harness='c02', variant='asan', quick=3000, thorough=100000,
+                     need=['calls.amessage', 'calls.vmessage', 'calls.message', 'calls.avmessage', 'calls.bundle',
+                           'calls.threadlink_write', 'calls.threadlink_writeArray', 'calls.rtdata_reply',
+                           'calls.rtdata_broadcast', 'capacity.too_small', 'capacity.exact', 'capacity.larger',
+                           'threadlink.oversize', 'threadlink.fits', 'rtdata.fits', 'rtdata.oversize'])],
+        rule='case = one message (6 of 10), bundle of 0..8 elements nested to depth 3 (2 of 10), ThreadLink write history (1 of 10) or '
+             'RtData reply/broadcast near 8192 bytes (1 of 10); messages and bundles are crossed with EVERY capacity 0..needed+8 '
+             '(exhaustive over capacities per case). distinct = hash of the reference encoding; every case is non-trivial.',
+        exhaustive=dict(quick=False, thorough=False),
+        assumptions=['reference sizes from refosc.h', 'elements handed to rtosc_bundle are followed by >=4 zero bytes (API passes no element length)']),
 }
